@@ -188,9 +188,13 @@ class Driver(concdrv.ConcMixin):
             steps = [0, I // 2, I - 1, I, I + 1, 2 * I]
             kinds = ['r', 'ru', 'rb', 'w', 'wait', 'stop', 'start']
             alpha = [(k, d) for k in kinds for d in steps] + [('wait', 3 * I), ('start', 3 * I)]
+            # at depth 5 the three kinds of inbound frame are not told apart (the model does not
+            # tell them apart either); they are at depths 1-4 and in the random traffic
+            alpha5 = [(k, d) for k in kinds if k not in ('ru', 'rb') for d in steps] + \
+                [('wait', 3 * I), ('start', 3 * I)]
             count = 0
             for n in range(1, depth + 1):
-                space = itertools.product(alpha, repeat=n)
+                space = itertools.product(alpha5 if n >= 5 else alpha, repeat=n)
                 for evs in space:
                     if not self.legal(T, evs):
                         continue
